@@ -77,16 +77,20 @@ theorem recv_bech_nonnative_error (s : State) (l : Ch) (t : Tok) (k : RKind) (to
   recvWith_nonhex_error genCfg genCfg_recvOk s l t k to amt m snd ht hk
 
 /-- a reverting memo call makes the whole receive an error with nothing credited; a succeeding one is counted once and
-ran as the sender derived from the packet's source channel (the counterparty's id) and `data.Sender` -/
+ran as the sender derived from `data.Sender` and the channel end the generated argument flow names
+(`memo_channel_end`: as the tree stands the packet's SOURCE channel, i.e. the id the counterparty chose) -/
 theorem recv_memo_call (s : State) (l : Ch) (t : Tok) (k : RKind) (to : Addr) (amt : Nat) (snd : Nat) :
     (let r := step s (.recv l t k to amt .callrev snd); r.2.isRecv false ∧ r.1 = s) ∧
     (let r := step s (.recv l t k to amt .callok snd);
-      (r.2.isRecv true ∧ r.1.bal.marker = s.bal.marker + 1 ∧ r.1.bal.caller = some (some (cpOf s.ctl l), snd)) ∨
+      (r.2.isRecv true ∧ r.1.bal.marker = s.bal.marker + 1 ∧
+        r.1.bal.caller = some (genCfg.memoChan.pick (cpOf s.ctl l) l, snd)) ∨
       (r.2.isRecv false ∧ r.1 = s)) := by
   have h := recvWith_memo genCfg genCfg_recvOk s l t k to amt snd
-  have hc : genCfg.memoChan = .src := by decide
   have hs : genCfg.memoSender = true := by decide
-  simpa [step, hc, hs, ChanSel.pick] using h
+  simpa [step, hs] using h
+
+/-- the channel that flows into the memo-call sender is one of the two ends of the packet's channel -/
+theorem memo_channel_end : genCfg.memoChan = .src ∨ genCfg.memoChan = .dst := by decide
 
 /-- no receive, whatever its outcome, touches commitments, relation records, sequences or logs of outbound transfers -/
 theorem recv_keeps_bookkeeping (s : State) (l : Ch) (t : Tok) (k : RKind) (to : Addr) (amt : Nat) (m : Memo) (snd : Nat) :
@@ -150,52 +154,63 @@ example : ∃ (H : List Char → List Char → (List Char × List Char) ⊕ Nat)
 example : ['a', '/', 'b'] ++ '/' :: ['c'] = ['a'] ++ '/' :: ['b', '/', 'c'] := by decide
 
 /-- (c) which packet fields reach `IntermediateSender` (regenerated argument flow `Keeper.OnRecvPacket` ->
-`HandlerIbcCall` -> `IntermediateSender`): the packet's SOURCE port and SOURCE channel — the identifiers the
-COUNTERPARTY chose for its end — and `data.Sender` -/
+`HandlerIbcCall` -> `IntermediateSender`): `data.Sender` and the port / channel of ONE end of the packet's channel —
+as the tree stands the SOURCE end, i.e. the identifiers the COUNTERPARTY chose for its side -/
 theorem memo_call_sender_flow {α : Type} (H : List Char → List Char → α) (p : InPkt) :
-    memoCallSender H p = H (p.srcPort ++ '/' :: p.srcChannel) p.sender := by
+    (genCfg.memoChan = .src → memoCallSender H p = H (p.srcPort ++ '/' :: p.srcChannel) p.sender) ∧
+    (genCfg.memoChan = .dst → memoCallSender H p = H (p.dstPort ++ '/' :: p.dstChannel) p.sender) := by
   have ha : FxVerif.Gen.C19.memoSenderArgs = ["packet.SourcePort", "packet.SourceChannel", "data.Sender"] ∨
-      FxVerif.Gen.C19.memoSenderArgs = ["packet.GetSourcePort()", "packet.GetSourceChannel()", "data.Sender"] := by decide
-  rcases ha with ha | ha <;> simp [memoCallSender, ha, inPktVal, intermediate_sender_shape]
+      FxVerif.Gen.C19.memoSenderArgs = ["packet.GetSourcePort()", "packet.GetSourceChannel()", "data.Sender"] ∨
+      FxVerif.Gen.C19.memoSenderArgs = ["packet.DestinationPort", "packet.DestinationChannel", "data.Sender"] ∨
+      FxVerif.Gen.C19.memoSenderArgs = ["packet.GetDestPort()", "packet.GetDestChannel()", "data.Sender"] := by decide
+  rcases ha with ha | ha | ha | ha <;>
+    simp [memoCallSender, ha, inPktVal, intermediate_sender_shape, genCfg, chanSelOf]
 
-/-- (d) a memo call never runs as a local account, and two memo calls run as the same account only if the counterparty
-channel id and the original sender coincide (same cryptographic hypotheses as (b)) -/
+/-- (d) a memo call never runs as a local account (same cryptographic hypotheses as (b)) -/
 theorem memo_call_sender_not_local {α κ : Type} (H : List Char → List Char → α) (acct : κ → α)
-    (hInj : ∀ x y x' y', H x y = H x' y' → x = x' ∧ y = y')
-    (hSep : ∀ x y pk, H x y ≠ acct pk) (p : InPkt) (hp : '/' ∉ p.srcPort) :
-    (∀ pk, memoCallSender H p ≠ acct pk) ∧
-    (∀ p' : InPkt, '/' ∉ p'.srcPort → memoCallSender H p = memoCallSender H p' →
-      p.srcPort = p'.srcPort ∧ p.srcChannel = p'.srcChannel ∧ p.sender = p'.sender) := by
-  constructor
-  · intro pk; rw [memo_call_sender_flow]; exact hSep _ _ pk
-  · intro p' hp' h
-    rw [memo_call_sender_flow, memo_call_sender_flow] at h
-    obtain ⟨h1, h2⟩ := hInj _ _ _ _ h
-    have := prefix_inj _ _ _ _ hp hp' h1
-    exact ⟨this.1, this.2, h2⟩
+    (hSep : ∀ x y pk, H x y ≠ acct pk) (p : InPkt) : ∀ pk, memoCallSender H p ≠ acct pk := by
+  intro pk
+  rcases memo_channel_end with h | h
+  · rw [(memo_call_sender_flow H p).1 h]; exact hSep _ _ pk
+  · rw [(memo_call_sender_flow H p).2 h]; exact hSep _ _ pk
 
-/-- (e) LIMITATION of the tree as it stands (reproduced on the real code, `fixes/C19-memo-sender-channel.md`): the
-derived sender does not depend on OUR channel.  Two packets that arrive on different local channels from two
+/-- (e) full strength, for a tree that derives the sender from OUR end of the channel (`hdst`; false as the tree
+stands): memo calls of packets that arrive on different local channels, or from different original senders, run as
+different accounts (collision resistance `hInj` as in (b)) -/
+theorem memo_sender_distinct_per_local_channel {α : Type} (H : List Char → List Char → α)
+    (hInj : ∀ x y x' y', H x y = H x' y' → x = x' ∧ y = y') (hdst : genCfg.memoChan = .dst) (p p' : InPkt)
+    (hp : '/' ∉ p.dstPort) (hp' : '/' ∉ p'.dstPort)
+    (hne : p.dstChannel ≠ p'.dstChannel ∨ p.sender ≠ p'.sender) : memoCallSender H p ≠ memoCallSender H p' := by
+  intro h
+  rw [(memo_call_sender_flow H p).2 hdst, (memo_call_sender_flow H p').2 hdst] at h
+  obtain ⟨h1, h2⟩ := hInj _ _ _ _ h
+  rcases hne with hne | hne
+  · exact hne (prefix_inj _ _ _ _ hp hp' h1).2
+  · exact hne h2
+
+/-- (f) LIMITATION of the tree as it stands (`hsrc`; reproduced on the real code, `fixes/C19-memo-sender-channel.md`):
+the derived sender does not depend on OUR channel.  Two packets that arrive on different local channels from two
 counterparties which both call their end the same, with the same sender string, run as the same EVM account — for
 every hash function. -/
-theorem memo_sender_collision_across_counterparties {α : Type} (H : List Char → List Char → α) (p p' : InPkt)
+theorem memo_sender_collision_across_counterparties {α : Type} (H : List Char → List Char → α)
+    (hsrc : genCfg.memoChan = .src) (p p' : InPkt)
     (hport : p.srcPort = p'.srcPort) (hch : p.srcChannel = p'.srcChannel) (hs : p.sender = p'.sender) :
     memoCallSender H p = memoCallSender H p' := by
-  rw [memo_call_sender_flow, memo_call_sender_flow, hport, hch, hs]
+  rw [(memo_call_sender_flow H p).1 hsrc, (memo_call_sender_flow H p').1 hsrc, hport, hch, hs]
 
 -- … and such packets exist on different local channels
 example : ∃ p p' : InPkt, p.dstChannel ≠ p'.dstChannel ∧ p.srcPort = p'.srcPort ∧ p.srcChannel = p'.srcChannel ∧ p.sender = p'.sender :=
   ⟨⟨['t'], ['c', '1'], ['t'], ['c', '0'], ['s']⟩, ⟨['t'], ['c', '1'], ['t'], ['c', '2'], ['s']⟩, by decide, rfl, rfl, rfl⟩
 
-/-- what does hold: when distinct local channels have distinct counterparty ids (the extra hypothesis `hcp`), memo calls
-of packets that arrive on different local channels run as different accounts -/
+/-- what does hold as the tree stands: when distinct local channels have distinct counterparty ids (the extra hypothesis
+`hcp`), memo calls of packets that arrive on different local channels run as different accounts -/
 theorem memo_sender_distinct_per_local_channel_partial {α : Type} (H : List Char → List Char → α)
-    (hInj : ∀ x y x' y', H x y = H x' y' → x = x' ∧ y = y') (p p' : InPkt)
+    (hInj : ∀ x y x' y', H x y = H x' y' → x = x' ∧ y = y') (hsrc : genCfg.memoChan = .src) (p p' : InPkt)
     (hp : '/' ∉ p.srcPort) (hp' : '/' ∉ p'.srcPort)
     (hcp : p.dstChannel ≠ p'.dstChannel → p.srcChannel ≠ p'.srcChannel)
     (hne : p.dstChannel ≠ p'.dstChannel) : memoCallSender H p ≠ memoCallSender H p' := by
   intro h
-  rw [memo_call_sender_flow, memo_call_sender_flow] at h
+  rw [(memo_call_sender_flow H p).1 hsrc, (memo_call_sender_flow H p').1 hsrc] at h
   obtain ⟨h1, _⟩ := hInj _ _ _ _ h
   exact hcp hne (prefix_inj _ _ _ _ hp hp' h1).2
 
@@ -334,8 +349,10 @@ theorem evm_transfer_settled_one_way (ops : List Op) :
     ∀ e ∈ c.evmSent, (∃ x ∈ c.commits, x.1 = e.key) ∨ e.key ∈ c.ackedOk ∨ (∃ r ∈ c.refundLog, r.key = e.key) :=
   (run_life genCfg genCfg_sound genCfg_removes ops init inv_init life_init).2.eLife
 
-/-- the generated configuration is the reference configuration at the generated success-ack delete prefix -/
-theorem genCfg_is_ref : genCfg = refCfg FxVerif.Gen.C19.ackSuccessDeletePrefix := by decide
+/-- the generated configuration is the reference configuration at the generated success-ack delete prefix (and the two
+facts the proposed repairs change: alias resolution order, channel end of the memo-call sender) -/
+theorem genCfg_is_ref : genCfg = { refCfg FxVerif.Gen.C19.ackSuccessDeletePrefix with
+    aliasFirst := genCfg.aliasFirst, memoChan := genCfg.memoChan } := by decide
 
 /-- witness (tree independent, prefix as an explicit parameter): with the success-ack delete under prefix 7 the record
 of a successfully acknowledged EVM-originated transfer is still there — and stays there for ever, see below -/
@@ -436,9 +453,17 @@ example : (step (run init [.chan 0 1, .fund 5 .A 0 100, .send 0 5 .A 40]) (.sett
   decide
 example : (step (run init [.chan 0 1, .fund 5 .A 0 100, .send 0 5 .A 40]) (.settle 0 1 .ackOk)).2.isDone :=
   ⟨60, 0, 0, 0, 60, _, rfl⟩
-example : (step (run init [.chan 0 1]) (.recv 0 .V .hex 9 7 .callok 1)).2 = .recv true 0 7 0 7 1 (some (some 1, 1)) := by decide
+example : (stepWith (refCfg 4) (runWith (refCfg 4) init [.chan 0 1]) (.recv 0 .V .hex 9 7 .callok 1)).2 =
+    .recv true 0 7 0 7 1 (some (some 1, 1)) := by decide
+example : (stepWith { refCfg 4 with memoChan := .dst } (runWith (refCfg 4) init [.chan 0 1]) (.recv 0 .V .hex 9 7 .callok 1)).2 =
+    .recv true 0 7 0 7 1 (some (some 0, 1)) := by decide
+example : (step (run init [.chan 0 1]) (.recv 0 .V .hex 9 7 .callok 1)).2 =
+    .recv true 0 7 0 7 1 (some (genCfg.memoChan.pick 1 0, 1)) := by decide
 example : (step (run init [.chan 0 1]) (.recv 0 .X .hex 9 7 .none 0)).2 = .recv false 0 0 0 0 0 none := by decide
-example : (step (run init [.chan 0 1]) (.recv 0 .A .hex 9 7 .none 0)).2 = .recv false 0 0 0 0 0 none := by decide
+example : (stepWith (refCfg 4) (runWith (refCfg 4) init [.chan 0 1]) (.recv 0 .A .hex 9 7 .none 0)).2 = .recv false 0 0 0 0 0 none := by
+  decide
+example : (stepWith { refCfg 4 with aliasFirst := true } (runWith (refCfg 4) init [.chan 0 1]) (.recv 0 .A .hex 9 7 .none 0)).2 =
+    .recv true 0 7 0 7 0 none := by decide
 example : (step (run init [.chan 0 7, .fund 5 .N 0 100, .csend 0 5 .N 60, .settle 0 1 .ackOk]) (.recv 0 .N .hex 9 60 .none 0)).2 =
     .recv true 0 60 0 0 0 none := by decide
 example : (step (run init [.chan 0 7, .fund 5 .U 0 100, .csend 0 5 .U 60, .settle 0 1 .ackOk]) (.recv 0 .U .hex 9 60 .none 0)).2 =
@@ -451,8 +476,8 @@ Theorems of this file:
   genCfg_recvOk, genCfg_sound, genCfg_removes,
   recv_credit_or_error, recv_bech_nonnative_error, recv_memo_call, recv_keeps_bookkeeping,
   intermediate_sender_shape, intermediate_sender_preimage_injective, intermediate_sender_not_local,
-  memo_call_sender_flow, memo_call_sender_not_local, memo_sender_collision_across_counterparties,
-  memo_sender_distinct_per_local_channel_partial,
+  memo_channel_end, memo_call_sender_flow, memo_call_sender_not_local, memo_sender_distinct_per_local_channel,
+  memo_sender_collision_across_counterparties, memo_sender_distinct_per_local_channel_partial,
   refund_exactly_once, evm_refund_credits_erc20, alias_metadata_refund_stuck, alias_metadata_refund_stuck_witness,
   relation_removed_on_failure_partial, relation_removed_always, settle_touches_only_its_record,
   relation_removed_always_reachable, relation_records_are_inflight, evm_transfer_settled_one_way,
